@@ -34,6 +34,8 @@ func main() {
 	verbose := flag.Bool("v", false, "verbose")
 	dump := flag.String("dump", "", "dump the query of the obligation with this name")
 	extra := flag.String("extra", "", "comma-separated extra module dirs to load")
+	standins := flag.String("standin", "", "comma-separated bounded stand-ins: <harness file>:<package dir relative to the repository>")
+	orderRoots := flag.String("order-roots", "", "comma-separated root functions for the C14 map-iteration-order scan")
 	rendered := flag.String("rendered", "", "directory with rendered parsers (output of the injected render test)")
 	replayDir := flag.String("replays", "/verif/replays", "where replay files go")
 	harnessDir := flag.String("harness", "/verif/harness", "run-time contract harnesses (bounded search for failing inputs)")
@@ -187,7 +189,8 @@ func main() {
 	keys := append([]string(nil), v.cs.Order...)
 	for _, k := range keys {
 		con := v.cs.Funcs[k]
-		if *prop != "" && !hasProp(con.Props, *prop) {
+		taggedOnly := *prop != "" && !hasProp(con.Props, *prop) && hasProp(con.TaggedOnly, *prop)
+		if *prop != "" && !hasProp(con.Props, *prop) && !taggedOnly {
 			continue
 		}
 		if con.Trusted || con.Template != "" {
@@ -201,11 +204,15 @@ func main() {
 		if *only != "" && !strings.Contains(v.unitName(cu), *only) {
 			continue
 		}
+		v.curProp = *prop
 		r := v.verifyFunc(cu, con)
 		results = append(results, r)
 		for _, o := range r.Obls {
 			// property filter per clause
 			if *prop != "" && len(o.Props) > 0 && !hasProp(o.Props, *prop) {
+				continue
+			}
+			if taggedOnly && !hasProp(o.Props, *prop) {
 				continue
 			}
 			ctxOf[o] = r.Ctx
@@ -230,6 +237,18 @@ func main() {
 			all = append(all, o)
 		}
 	}
+	if *orderRoots != "" {
+		r := v.orderCheck(strings.Split(*orderRoots, ","))
+		results = append(results, r)
+		for _, o := range r.Obls {
+			if o.ctx != nil {
+				ctxOf[o] = o.ctx
+			} else {
+				ctxOf[o] = r.Ctx
+			}
+			all = append(all, o)
+		}
+	}
 	if len(renderObls) > 0 {
 		rr := &FuncResult{Unit: "rendered (extraction checks)", Obls: renderObls, Ctx: NewCtx()}
 		results = append(results, rr)
@@ -251,6 +270,13 @@ func main() {
 	solveS := time.Since(t0).Seconds() - loadS - genS
 
 	rep := &Report{Prop: *prop, Tier: *tier, Seed: *seed, Results: results, Obls: all, LoadS: loadS, GenS: genS, SolveS: solveS, Wall: time.Since(t0).Seconds(), V: v, ReplayDir: *replayDir, HarnessDir: *harnessDir, Repo: *repo}
+	for _, si := range strings.Split(*standins, ",") {
+		if si == "" {
+			continue
+		}
+		parts := strings.SplitN(si, ":", 2)
+		rep.runStandin(filepath.Join(*harnessDir, parts[0]), filepath.Join(*repo, parts[1]))
+	}
 	rep.Known = loadKnown(*knownPath)
 	basePath := filepath.Join(*baseDir, *prop+".json")
 	writeBase := new(string)
